@@ -10,6 +10,7 @@ var units = map[string]common.UnitFunc{
 	"c20crypto": unitC20crypto,
 	"c13crypto": unitC13crypto,
 	"c05":       unitC05,
+	"c05orch":   unitC05orch,
 	"c09":       unitC09,
 	"c11crypto": unitC11crypto,
 	"c08":       unitC08,
